@@ -83,6 +83,27 @@ func checkFileOrder(p *Program, r *Result) {
 				continue
 			}
 			poss := ordersAt(ci)
+			// a comparator chosen per order (variable assigned in the arms of a switch over it.order, nil where no sort
+			// applies) and a call guarded by `cmp != nil`: the call runs only under the orders of the non-nil arms
+			if len(args) >= 2 {
+				if phi, ok := args[1].(*ssa.Phi); ok && nilGuarded(ci, phi) {
+					u := map[int]bool{}
+					for i, e := range phi.Edges {
+						if isNilConst(e) {
+							continue
+						}
+						pred := phi.Block().Preds[i]
+						for o := range ordersAt(pred.Instrs[len(pred.Instrs)-1]) {
+							u[o] = true
+						}
+					}
+					for o := range poss {
+						if !u[o] {
+							delete(poss, o)
+						}
+					}
+				}
+			}
 			switch {
 			case onField(args[0], "messageIndexes"):
 				nQueueSort++
